@@ -20,12 +20,19 @@ rule = ("scripts = 'p fmt <description> <sect flags> <opt flags>' then groups of
         "with an anonymous section / empty-named element / named section / option inside; stream 3 = grammar-generated files mutated by delete/duplicate/flip x name flag sets x handler "
         "refusals x pre-populated target trees x read errors, each file also through mpt_node_parse (stdio stream, name restriction texts, with and without logger) and default-format files through mpt_parse_folder; non-trivial = a script in which the real code "
         "delivered at least one element to the handler or built a node (event list / tree not empty), counted "
-        "per distinct script")
+        "per distinct script; behind every parse (every third one in stream 1) the op 'p stat' / 'x stat' compares "
+        "return code, line counter, number of getc calls, consumed bytes and the representation (inline / buffer) of "
+        "the stored values with the model in the observable column (a difference fails the check); 'p config fail=k' "
+        "reports whether the handler refused: 'ok' together with 'refused=yes' is not an allowed outcome")
 assumptions = [
     "the getc callback returns 0..255 or the end marker (-2 end of input, -1 read error) and keeps returning it",
     "memory allocation never fails in the harness runs",
     "<ctype.h> classification is that of the C locale",
     "leak freedom and absence of invalid accesses are ASan/UBSan/LSan results on the runs, not theorems",
+    "'the target is left as it was on failure' is a correspondence result ('p node', 'p nparse', 'x read': error only "
+    "together with the old target, printed by walking the real tree); the fail_clean theorems are definitional in M",
+    "observations of the end marker are not counted as reads (no upper bound on getc calls is proved; the count is "
+    "compared with the model on every script)",
 ]
 trusted = ["hand-written model MptModel/Impl/Parse.lean + Impl/ParseConfig.lean tied to mptcore/parse/*.c and "
            "mptcore/config/path_*.c by harness/drv_parse.c (independent event recorder, path splitter, nesting "
@@ -35,21 +42,24 @@ trusted = ["hand-written model MptModel/Impl/Parse.lean + Impl/ParseConfig.lean 
 STAT_AFTER = {"p": ("config", "node", "nparse", "folder"), "x": ("read",)}
 
 
-def with_stat(lines):
-    """behind every parse the op `p stat` / `x stat`: return code, line counter, number of getc calls, consumed
-    bytes (and the representation of the values of the tree) of the real code are compared with the model there
-    (observable section: a difference is a failure of the check, not drift)"""
+def with_stat(lines, every=1):
+    """behind every parse (every `every`-th one in the exhaustive stream) the op `p stat` / `x stat`: return code, line
+    counter, number of getc calls, consumed bytes (and the representation of the values of the tree) of the real
+    code are compared with the model there (observable section: a difference is a failure of the check, not drift)"""
     out = []
+    k = 0
     for ln in lines:
         out.append(ln)
         w = ln.split()
         if len(w) > 1 and w[0] in STAT_AFTER and w[1] in STAT_AFTER[w[0]]:
-            out.append(w[0] + " stat")
+            k += 1
+            if k % every == 0:
+                out.append(w[0] + " stat")
     return out
 
 
-def stat_all(named):
-    return [(n, with_stat(s)) for n, s in named]
+def stat_all(named, every=1):
+    return [(n, with_stat(s, every)) for n, s in named]
 
 
 def corpus(chk):
@@ -375,14 +385,14 @@ def formats(tier, seed, scale):
 
 
 def scripts(tier, seed, scale=1):
-    out = []
-    out += exhaustive(tier)
-    out += long_tokens(tier)
-    out += noassign(tier)
-    out += buffer_steps(tier)
-    out += grammar(tier, seed, scale)
-    out += formats(tier, seed, scale)
-    return stat_all(out)
+    out = stat_all(exhaustive(tier), 3)
+    rest = []
+    rest += long_tokens(tier)
+    rest += noassign(tier)
+    rest += buffer_steps(tier)
+    rest += grammar(tier, seed, scale)
+    rest += formats(tier, seed, scale)
+    return out + stat_all(rest)
 
 
 def nontrivial(script, c_lines):
@@ -391,7 +401,7 @@ def nontrivial(script, c_lines):
         if i < 0 or not ln.startswith("R ok"):
             continue
         c = ln[i + 4:].split(" | ")[0].strip()
-        if c not in (".", "") and not c.startswith("ss="):
+        if c not in (".", "", "-") and not c.startswith("ss=") and not c.startswith("code="):
             return True
     return False
 
